@@ -1,5 +1,6 @@
 import JediModel.Lemmas.Tree
 import JediModel.Model.Names
+import JediModel.Lemmas.Names
 import JediModel.Model.ParsoPos
 import JediModel.Gen.C17
 /-! C17 — every reported position is faithful to the text.  The API's `line` / `column` are
@@ -288,6 +289,99 @@ theorem names_flag_sound (occs : List Occ) (a : Bool) :
     · have := (List.mergeSort_perm _ _).mem_iff.mp ho
       simp only [List.mem_filter] at this
       simpa using this.2
+
+/-! ### histories: the same Script asked again and again
+
+The property holds for every result of every query - also for the tenth enumeration on a Script
+that an editor plugin keeps around.  `Model/Names.namesHistory` runs a list of `_names(flags)`
+calls on ONE Script whose only state is the memo of the callee `_names` iterates over
+(`Gen.C17.namesSource`). -/
+
+/-- **names_history_faithful**: unless a one-shot iterator is remembered, every enumeration of
+every history (any flags, any repetitions, any order) answers exactly like the first enumeration
+of a fresh Script. -/
+theorem names_history_faithful (src : NameSource) (h : (src.memoised && src.oneShot) = false)
+    (occs : List Occ) (fs : List Flags) :
+    namesHistory src occs [] fs = fs.map (namesOf occs) :=
+  namesHistory_eq_map src h occs fs [] (Memo.good_nil occs)
+
+/-- what the source does (translator: `for name in <call>` in `Script._names`, the decorators of
+the callee, and whether the callee - followed through `jedi/` - returns `filter(...)` / `map(...)` /
+a generator): `helpers.get_module_names` hands out a `filter` object, and it is called afresh by
+every `_names`.  Putting that call under `cache.memoize_method` makes `namesSourceMemoised` true
+and this theorem false. -/
+theorem names_source_not_remembered_one_shot :
+    (Gen.C17.namesSourceMemoised && Gen.C17.namesSourceOneShot) = false := by decide
+
+/-- the callee the model was written against -/
+theorem names_source_shape : Gen.C17.namesSource = "jedi/api/helpers.py:get_module_names" := by decide
+
+/-- **names_history_faithful_source**: the statement for the source as it is -/
+theorem names_history_faithful_source (occs : List Occ) (fs : List Flags) :
+    namesHistory ⟨Gen.C17.namesSourceMemoised, Gen.C17.namesSourceOneShot⟩ occs [] fs
+      = fs.map (namesOf occs) :=
+  names_history_faithful _ names_source_not_remembered_one_shot occs fs
+
+/-- **names_history_every_token_once**: in every history every
+`get_names(all_scopes=True, definitions=True, references=True)` reports every indexed name exactly
+as often as it occurs in the index, however often it was asked before -/
+theorem names_history_every_token_once (occs : List Occ) (fs : List Flags) (i : Nat)
+    (hi : fs[i]? = some (true, true, true)) :
+    ∃ ans, (namesHistory ⟨Gen.C17.namesSourceMemoised, Gen.C17.namesSourceOneShot⟩ occs [] fs)[i]? = some ans
+      ∧ ans.Perm occs ∧ ∀ o, ans.count o = occs.count o := by
+  rw [names_history_faithful_source]
+  refine ⟨scriptNames occs true true true, ?_, names_all occs, names_all_once occs⟩
+  simp [List.getElem?_map, hi, namesOf]
+
+example : ([(true, true, true), (false, true, false), (true, true, true)] : List Flags)[2]? = some (true, true, true) := rfl
+
+/- FULL for an arbitrary source is false: -/
+/-- **one_shot_memo_counter_witness**: a remembered one-shot iterator (`memoize_method` over a
+function returning `filter(...)`) answers the first enumeration and then nothing: the second
+`get_names` with the same flags is empty for EVERY program … -/
+theorem one_shot_memo_counter_witness (occs : List Occ) (f : Flags) :
+    namesHistory ⟨true, true⟩ occs [] [f, f] = [namesOf occs f, []] := by
+  simp [namesHistory, namesStep, Memo.get, Memo.set, namesOf, scriptNames]
+
+/-- … while enumerations with other flags are not disturbed (which is why a test that asks every
+question once never sees it) -/
+theorem one_shot_memo_interleaved (occs : List Occ) (f g : Flags) (h : g ≠ f) :
+    namesHistory ⟨true, true⟩ occs [] [f, g, f, g] = [namesOf occs f, namesOf occs g, [], []] := by
+  simp [namesHistory, namesStep, Memo.get, Memo.set, namesOf, scriptNames, Ne.symm h]
+
+/-- a remembered container is fine -/
+theorem container_memo_faithful (occs : List Occ) (fs : List Flags) :
+    namesHistory ⟨true, false⟩ occs [] fs = fs.map (namesOf occs) :=
+  names_history_faithful _ rfl occs fs
+
+/-- **api_memo_values_replayable**: for EVERY function of `jedi/api/` under a memo decorator (the
+table the translator extracts by walking `jedi/api/**/*.py`; one-shot = generator function or a
+returned generator expression / `map` / `filter` / `zip` / `chain`, followed through the jedi
+functions it returns) what the memo holds can be read any number of times: a materialising
+decorator stands between a one-shot iterator and every remembering decorator, or the remembering
+decorator is one of the two that take generators apart themselves. -/
+theorem api_memo_values_replayable :
+    ∀ e ∈ Gen.C17.apiMemoTable, entryReplayable e = true := by decide
+
+/-- … and no method of `jedi/api/` keeps a one-shot iterator in an attribute of its object -/
+theorem api_attributes_replayable :
+    ∀ e ∈ Gen.C17.apiAttributeTable, entryReplayable e = true := by decide
+
+/-- the table is not empty and contains the memoised methods of Script / BaseName / Name -/
+theorem api_memo_table_covers :
+    (Gen.C17.apiMemoTable.map (·.1)).contains "jedi/api/__init__.py:Script._get_module" = true ∧
+    (Gen.C17.apiMemoTable.map (·.1)).contains "jedi/api/classes.py:BaseName._get_module_context" = true ∧
+    (Gen.C17.apiMemoTable.map (·.1)).contains "jedi/api/classes.py:Name.defined_names" = true := by decide
+
+/-- what the rule accepts and rejects -/
+theorem memo_stack_examples :
+    entryReplayable ("Script._get_module_names", ["memoize_method"], true) = false ∧
+    entryReplayable ("Script._get_module_names", ["memoize_method", "to_list"], true) = true ∧
+    entryReplayable ("Script._get_module_names", ["to_list", "memoize_method"], true) = false ∧
+    entryReplayable ("Script.__init__:self._all_names", ["attribute"], true) = false ∧
+    entryReplayable ("f", ["lru_cache"], true) = false ∧
+    entryReplayable ("f", ["memoize_method"], false) = true ∧
+    entryReplayable ("cache_signatures", ["signature_time_cache"], true) = true := by decide
 
 /-- the source sorts by `start_pos` and takes line / column from the name's `start_pos` -/
 theorem source_shape : Gen.C17.namesSortKey = "start_pos" ∧ Gen.C17.positionSource = "self._name.start_pos"
